@@ -549,7 +549,7 @@ class SmallSet {
       auto sortedPtrs = ComputeSortedPtrVec(_vec);
       if (o.isSmall()) {
         // We are both small, we need to sort both containers
-        auto oSortedPtrs = ComputeSortedPtrVec(o._vec);
+        auto oSortedPtrs = o.ComputeSortedPtrVec(o._vec);
         return std::lexicographical_compare_three_way(sortedPtrs.begin(), sortedPtrs.end(), oSortedPtrs.begin(),
                                                       oSortedPtrs.end(), Comp());
       }
@@ -559,7 +559,7 @@ class SmallSet {
     }
     if (o.isSmall()) {
       // other is small: as we do not order elements in the small container, we need to sort them.
-      auto oSortedPtrs = ComputeSortedPtrVec(o._vec);
+      auto oSortedPtrs = o.ComputeSortedPtrVec(o._vec);
       return std::lexicographical_compare_three_way(_set.begin(), _set.end(), oSortedPtrs.begin(), oSortedPtrs.end(),
                                                     Comp());
     }
@@ -594,7 +594,7 @@ class SmallSet {
       auto sortedPtrs = ComputeSortedPtrVec(_vec);
       if (o.isSmall()) {
         // We are both small, we need to sort both containers
-        auto oSortedPtrs = ComputeSortedPtrVec(o._vec);
+        auto oSortedPtrs = o.ComputeSortedPtrVec(o._vec);
         return std::lexicographical_compare(sortedPtrs.begin(), sortedPtrs.end(), oSortedPtrs.begin(),
                                             oSortedPtrs.end(), Comp());
       }
@@ -603,7 +603,7 @@ class SmallSet {
     }
     if (o.isSmall()) {
       // other is small: as we do not order elements in the small container, we need to sort them.
-      auto oSortedPtrs = ComputeSortedPtrVec(o._vec);
+      auto oSortedPtrs = o.ComputeSortedPtrVec(o._vec);
       return std::lexicographical_compare(_set.begin(), _set.end(), oSortedPtrs.begin(), oSortedPtrs.end(), Comp());
     }
     return _set < o._set;
@@ -675,12 +675,14 @@ class SmallSet {
 
   using PtrVec = FixedCapacityVector<const_pointer, N, vec::UncheckedGrowingPolicy>;
 
-  static PtrVec ComputeSortedPtrVec(const VecType &c) {
+  PtrVec ComputeSortedPtrVec(const VecType &c) const {
     PtrVec sortedPtrs;
     std::transform(c.begin(), c.end(), std::back_inserter(sortedPtrs),
                    [](const_reference r) { return std::addressof(r); });
+    // Sort with our compare object (it may be stateful), as the underlying set would do
+    Compare comp = key_comp();
     std::sort(sortedPtrs.begin(), sortedPtrs.end(),
-              [](const_pointer p1, const_pointer p2) { return Compare()(*p1, *p2); });
+              [&comp](const_pointer p1, const_pointer p2) { return comp(*p1, *p2); });
     return sortedPtrs;
   }
 
